@@ -971,7 +971,7 @@ func driveJournal(seed uint64, n int, size int, em *Emitter, exhaustive bool) {
 			}
 		}
 	}
-	for i := 0; i < n; i++ {
+	for i := 0; i < 4*n; i++ { // (one small program each: cheap)
 		em.Reset(fmt.Sprintf("journal-vv-%d-%d", seed, i))
 		off, sz := uint256.NewInt(uint64(r.Intn(34))), uint256.NewInt(uint64(r.Intn(36)))
 		if r.Chance(12) {
@@ -987,11 +987,17 @@ func driveJournal(seed uint64, n int, size int, em *Emitter, exhaustive bool) {
 			sz = new(uint256.Int).Sub(new(uint256.Int).Lsh(uint256.NewInt(1), 64), uint256.NewInt(o+uint64(r.Intn(3))))
 			sz.Add(sz, uint256.NewInt(uint64(r.Intn(3))))
 		}
-		if r.Chance(8) {
+		if r.Chance(20) {
 			// an operand whose LOW 64 bits are a valid offset / width while the whole word is not (2^64·m + small)
 			hi := new(uint256.Int).Lsh(uint256.NewInt(1), uint([]int{64, 64, 65, 128, 200, 255}[r.Intn(6)]))
 			if r.Chance(40) {
 				hi = new(uint256.Int).Lsh(new(uint256.Int).SetBytes(r.Bytes(1+r.Intn(23))), 64)
+			} else if r.Chance(45) {
+				// … or whose low BYTE is: 256·m + small below 2^64 (a width narrowed to uint8 before it is bounded)
+				hi = new(uint256.Int).Lsh(uint256.NewInt(1), uint([]int{8, 8, 9, 16, 32, 63}[r.Intn(6)]))
+				if r.Chance(40) {
+					hi = new(uint256.Int).Lsh(uint256.NewInt(uint64(1+r.Intn(1<<20))), 8)
+				}
 			}
 			lowOp := new(uint256.Int).Add(hi, uint256.NewInt(uint64(r.Intn(34))))
 			switch r.Intn(3) {
